@@ -579,7 +579,8 @@ End TR_PREFIX.
    Ipv6Extensions::read_limited; IoFault/Model.v: LimitedReader).  Lemmas: Roundtrip/IpHeadersProofs.v.
    The chain bookkeeping itself (set_next_headers links in RFC order, write <=> walk for the
    extensions alone) is C12's (C12_write_iff_walk, C12_link_walks), cited through the lemmas. *)
-From EP Require Roundtrip.Ipv6 Roundtrip.Auth Roundtrip.Exts4 Roundtrip.IpHeaders Roundtrip.IpHeadersProofs.
+From EP Require Roundtrip.Ipv6 Roundtrip.Auth Roundtrip.Exts4 Roundtrip.IpHeaders Roundtrip.IpHeadersProofs
+  Roundtrip.IpHeadersBuild.
 From EP Require ExtChain.Spec ExtChain.Model Roundtrip.Exts6Proofs.
 Module IPHEADERS.
 Import Checksum.Model Roundtrip.Ipv4 Roundtrip.Ipv6 Roundtrip.Auth Roundtrip.Exts4.
@@ -751,5 +752,32 @@ Example C08_IpHeaders_read_zero_payload_len_refuted :
                                                      ipp_len_source := LsSlice; ipp_payload := [9; 9] |})
     /\ iph_read (w ++ [9; 9]) = Err ELen.
 Proof. split; [reflexivity|]. split; [reflexivity|]. eexists. split; [vm_compute; reflexivity|]. split; vm_compute; reflexivity. Qed.
+(* iph_wf is what the crate's own setters establish: for EVERY value with parts in range (any links, any
+   length field), set_next_headers(n) -- n not an extension header of the version: iph_last_ok -- followed
+   by a successful set_payload_len(k) gives a well-formed value that walks to n and announces header_len + k
+   bytes (IPv6 without extensions and k = 0: payload_length 0).  Linking: C12 (C12_link_walks). *)
+Theorem C08_IpHeaders_built_wf : forall h n k h', iph_parts_wf h = true ->
+  Roundtrip.IpHeadersBuild.iph_last_ok h n = true ->
+  iph_set_payload_len (fst (iph_set_next_headers h n)) k = Some h' ->
+  iph_wf h' = true /\ iph_final h' = n /\ iph_header_len h' = iph_header_len h
+  /\ iph_announced h' = (match h' with
+                         | IpV6 _ _ => if iph_header_len h' - 40 + k =? 0 then None else Some (iph_header_len h' + k)
+                         | IpV4 _ _ => Some (iph_header_len h' + k)
+                         end).
+Proof. exact Roundtrip.IpHeadersBuild.iph_built_wf. Qed.
+Print Assumptions C08_IpHeaders_built_wf.
+
+(* the unlinked value of C08_IpHeaders_ex_not_linked becomes well-formed *)
+Example C08_IpHeaders_ex_built :
+  let h6 := IpV6 {| i6_traffic_class := 0; i6_flow_label := 0; i6_payload_length := 8; i6_next_header := 17;
+                    i6_hop_limit := 64; i6_source := repeat 1 16; i6_destination := repeat 2 16 |}
+                 (ExtChain.Model.mkExts6 None None
+                    (Some (ExtChain.Model.mkRouting (ExtChain.Model.mkRaw 17 0 [1; 2; 3; 4; 5; 6]) None)) None None) in
+  iph_wf h6 = false /\ Roundtrip.IpHeadersBuild.iph_last_ok h6 6 = true /\
+  match iph_set_payload_len (fst (iph_set_next_headers h6 6)) 5 with
+  | Some h' => iph_wf h' = true /\ iph_final h' = 6 /\ iph_announced h' = Some 53
+  | None => False
+  end.
+Proof. vm_compute. repeat split; reflexivity. Qed.
 End IPHEADERS.
 (* ---- end extend-c08c ---- *)
